@@ -37,7 +37,9 @@ PORTSETS = [[dict(form="int", pub=80, loc="")], [dict(form="pair", pub=443, loc=
             [dict(form="pair", pub=80, loc="127.0.0.1:8080"), dict(form="str", pub=443, loc="127.0.0.1:8443"), dict(form="pairstr", pub=80, loc="unix:/tmp/web.sock")],
             [dict(form="int", pub=80, loc=""), dict(form="int", pub=80, loc="")]]
 CLIENTS = [[], [dict(name="alice", token="")], [dict(name="alice", token="YWxpY2VzZWNyZXQ"), dict(name="bob", token="")],
-           [dict(name="carol", token="Y2Fyb2w"), dict(name="dave", token="ZGF2ZQ")]]
+           [dict(name="carol", token="Y2Fyb2w"), dict(name="dave", token="ZGF2ZQ")],
+           # a token the caller supplied that happens to be the empty string is still the caller's token
+           [dict(name="alice", token=""), dict(name="bob", token="b0bs3kr1t"), dict(name="carol", token="", given=True)]]
 
 
 def requests(tier, seed):
